@@ -5,6 +5,7 @@ cd "$(dirname "$(readlink -f "$0")")/.." || exit 2
 ids="${@:-$(ls seeded | sort)}"
 for s in $ids; do
   p=${s%-*}
+  if grep -q '"obsolete"' seeded/$s/meta.json 2>/dev/null; then echo "$s OBSOLETE"; continue; fi
   pf=seeded/$s/patch.diff; [ -f seeded/$s/patch.rebased.diff ] && pf=seeded/$s/patch.rebased.diff
   out=$(LINES_MAX=1 tools/mh_try.sh $pf $p 2>&1)
   if echo "$out" | grep -q "APPLY-FAILED"; then echo "$s APPLY-FAILED"; continue; fi
